@@ -20,7 +20,7 @@ func c02(c *Ctx) {
 	for len(progs) < n {
 		progs = append(progs, genProg(rng, ProgOpts{MaxNodes: 6 + rng.Intn(50), Malformed: rng.Chance(5), Phys: true, Synth: true, NVirt: 8, Branches: true}))
 	}
-	emitPipelineCases(c, progs, []pipeCheck{chkDiff, chkLive, chkCFG}, 20, func(p *Prog, ob *Observed) bool {
+	emitPipelineCases(c, progs, []pipeCheck{chkDiff, chkLive, chkCFG, chkZext}, 20, func(p *Prog, ob *Observed) bool {
 		nb := 0
 		for _, nd := range p.Nodes {
 			if i, ok := nd.(*ir.Instruction); ok && i.IsBranch {
